@@ -5,6 +5,7 @@ package main
 import (
 	"context"
 	"strconv"
+	"sync"
 	"time"
 
 	"github.com/atomix/go-sdk/pkg/test"
@@ -128,8 +129,18 @@ func (a *tx2A) obj(r *rec) *api2.Transaction {
 func (a *tx2A) back(r *rec, t *api2.Transaction) {
 	r.version, r.revision, r.index = t.Version, uint64(t.Revision), uint64(t.Index)
 }
-func (a *tx2A) create(r *rec) error { t := a.obj(r); err := a.s.Create(bg(), t); a.back(r, t); return err }
-func (a *tx2A) update(r *rec) error { t := a.obj(r); err := a.s.Update(bg(), t); a.back(r, t); return err }
+func (a *tx2A) create(r *rec) error {
+	t := a.obj(r)
+	err := a.s.Create(bg(), t)
+	a.back(r, t)
+	return err
+}
+func (a *tx2A) update(r *rec) error {
+	t := a.obj(r)
+	err := a.s.Update(bg(), t)
+	a.back(r, t)
+	return err
+}
 func (a *tx2A) updateStatus(r *rec) error {
 	t := a.obj(r)
 	err := a.s.UpdateStatus(bg(), t)
@@ -197,7 +208,9 @@ func (a *prop2A) obj(r *rec) *api2.Proposal {
 	p.Version, p.Revision = r.version, api2.Revision(r.revision)
 	return p
 }
-func (a *prop2A) back(r *rec, p *api2.Proposal) { r.version, r.revision = p.Version, uint64(p.Revision) }
+func (a *prop2A) back(r *rec, p *api2.Proposal) {
+	r.version, r.revision = p.Version, uint64(p.Revision)
+}
 func (a *prop2A) create(r *rec) error {
 	p := a.obj(r)
 	err := a.s.Create(bg(), p)
@@ -297,7 +310,9 @@ func (a *cfg2A) obj(r *rec, status bool) *api2.Configuration {
 	}
 	return c
 }
-func (a *cfg2A) back(r *rec, c *api2.Configuration) { r.version, r.revision = c.Version, uint64(c.Revision) }
+func (a *cfg2A) back(r *rec, c *api2.Configuration) {
+	r.version, r.revision = c.Version, uint64(c.Revision)
+}
 func (a *cfg2A) create(r *rec) error {
 	c := a.obj(r, false)
 	err := a.s.Create(bg(), c)
@@ -362,8 +377,12 @@ func (a *cfg2A) watch(ctx context.Context, replay bool, idkey string, out chan<-
 // ------------------------------------------------------------------ v3 transactions
 type tx3A struct {
 	s   tx3.Store
+	mu  sync.Mutex
 	idx map[string]uint64 // key -> log index (learned from successful creates / gets)
 }
+
+func (a *tx3A) setIdx(k string, i uint64) { a.mu.Lock(); a.idx[k] = i; a.mu.Unlock() }
+func (a *tx3A) getIdx(k string) uint64    { a.mu.Lock(); defer a.mu.Unlock(); return a.idx[k] }
 
 // keys k0,k1 live in the log of target ta, the others in tb
 func tx3Target(key string) api3.Target {
@@ -392,11 +411,21 @@ func (a *tx3A) obj(r *rec) *api3.Transaction {
 func (a *tx3A) back(r *rec, t *api3.Transaction, err error) {
 	r.version, r.revision, r.index = t.Version, uint64(t.Revision), uint64(t.ID.Index)
 	if err == nil && r.index != 0 {
-		a.idx[r.key] = r.index
+		a.setIdx(r.key, r.index)
 	}
 }
-func (a *tx3A) create(r *rec) error { t := a.obj(r); err := a.s.Create(bg(), t); a.back(r, t, err); return err }
-func (a *tx3A) update(r *rec) error { t := a.obj(r); err := a.s.Update(bg(), t); a.back(r, t, err); return err }
+func (a *tx3A) create(r *rec) error {
+	t := a.obj(r)
+	err := a.s.Create(bg(), t)
+	a.back(r, t, err)
+	return err
+}
+func (a *tx3A) update(r *rec) error {
+	t := a.obj(r)
+	err := a.s.Update(bg(), t)
+	a.back(r, t, err)
+	return err
+}
 func (a *tx3A) updateStatus(r *rec) error {
 	t := a.obj(r)
 	err := a.s.UpdateStatus(bg(), t)
@@ -415,7 +444,7 @@ func (a *tx3A) get(key string) (*rec, error) {
 	if t2, err2 := a.s.Get(bg(), api3.TransactionID{Target: tx3Target(key), Index: t.ID.Index}); err2 != nil || t2.Key != t.Key || t2.Version != t.Version {
 		return nil, errors.NewInternal("Get by index disagrees with GetKey")
 	}
-	a.idx[key] = uint64(t.ID.Index)
+	a.setIdx(key, uint64(t.ID.Index))
 	return a.conv(t), nil
 }
 func (a *tx3A) list() ([]*rec, error) {
@@ -429,7 +458,7 @@ func (a *tx3A) list() ([]*rec, error) {
 	}
 	return r, nil
 }
-func (a *tx3A) canIDWatch(key string) bool { return a.idx[key] != 0 }
+func (a *tx3A) canIDWatch(key string) bool { return a.getIdx(key) != 0 }
 func (a *tx3A) watch(ctx context.Context, replay bool, idkey string, out chan<- event) error {
 	ch := make(chan api3.TransactionEvent)
 	var opts []tx3.WatchOption
@@ -437,7 +466,7 @@ func (a *tx3A) watch(ctx context.Context, replay bool, idkey string, out chan<- 
 		opts = append(opts, tx3.WithReplay())
 	}
 	if idkey != "" {
-		opts = append(opts, tx3.WithTransactionID(api3.TransactionID{Target: tx3Target(idkey), Index: api3.Index(a.idx[idkey])}))
+		opts = append(opts, tx3.WithTransactionID(api3.TransactionID{Target: tx3Target(idkey), Index: api3.Index(a.getIdx(idkey))}))
 	}
 	if err := a.s.Watch(ctx, ch, opts...); err != nil {
 		return err
@@ -472,7 +501,9 @@ func (a *cfg3A) obj(r *rec, status bool) *api3.Configuration {
 	}
 	return c
 }
-func (a *cfg3A) back(r *rec, c *api3.Configuration) { r.version, r.revision = c.Version, uint64(c.Revision) }
+func (a *cfg3A) back(r *rec, c *api3.Configuration) {
+	r.version, r.revision = c.Version, uint64(c.Revision)
+}
 func (a *cfg3A) create(r *rec) error {
 	c := a.obj(r, false)
 	err := a.s.Create(bg(), c)
